@@ -25,6 +25,7 @@ import (
 	abci "github.com/cometbft/cometbft/abci/types"
 	"github.com/cosmos/cosmos-sdk/crypto/keys/secp256k1"
 	cryptotypes "github.com/cosmos/cosmos-sdk/crypto/types"
+	storetypes "github.com/cosmos/cosmos-sdk/store/types"
 	"github.com/cosmos/cosmos-sdk/testutil/sims"
 	sdk "github.com/cosmos/cosmos-sdk/types"
 	authtypes "github.com/cosmos/cosmos-sdk/x/auth/types"
@@ -40,8 +41,11 @@ import (
 
 const nUsers = 4
 
-// accounts 0..3 users, 4 tokenfactory module, 5 fee collector, 6 gov module (not blocked)
-const nAccts = 7
+// accounts 0..3 users, 4 tokenfactory module, 5 fee collector, 6 gov module (not blocked),
+// 7 an address that is never funded: it has no x/auth account (accounts are created lazily) unless
+// somebody mints to it; it never signs
+const nAccts = 8
+const ghost = 7
 
 type c15Op struct {
 	T        string `json:"t"` // create | mint | burn | admin | meta | burnnative
@@ -110,7 +114,33 @@ func (w *c15World) freshActors(t *testing.T) {
 		}
 	}
 	w.addrs = append(w.addrs, authtypes.NewModuleAddress(tftypes.ModuleName),
-		authtypes.NewModuleAddress(authtypes.FeeCollectorName), authtypes.NewModuleAddress(govtypes.ModuleName))
+		authtypes.NewModuleAddress(authtypes.FeeCollectorName), authtypes.NewModuleAddress(govtypes.ModuleName),
+		sdk.AccAddress(secp256k1.GenPrivKeyFromSecret([]byte(fmt.Sprintf("c15-ghost-%d", w.caseNo))).PubKey().Address()))
+}
+
+// reimport: the module's genesis is exported, the module store emptied, and the exported genesis
+// imported again (what a restart from an exported state / an upgrade by export does to the module).
+func (w *c15World) reimport() {
+	c := w.c
+	k := c.App.TokenFactoryKeeper
+	gs := k.ExportGenesis(c.Ctx())
+	var key storetypes.StoreKey
+	for _, sk := range c.App.GetStoreKeys() {
+		if sk.Name() == tftypes.StoreKey {
+			key = sk
+		}
+	}
+	st := c.Ctx().KVStore(key)
+	var keys [][]byte
+	it := st.Iterator(nil, nil)
+	for ; it.Valid(); it.Next() {
+		keys = append(keys, append([]byte{}, it.Key()...))
+	}
+	it.Close()
+	for _, kk := range keys {
+		st.Delete(kk)
+	}
+	k.InitGenesis(c.Ctx(), *gs)
 }
 
 // expand turns a canonical string into the real one.
@@ -235,6 +265,8 @@ func normaliseOp(op *c15Op) {
 	op.Sender = ((op.Sender % nUsers) + nUsers) % nUsers
 	switch op.T {
 	case "create", "mint", "burn", "admin", "meta", "burnnative":
+	case "reimport":
+		op.Join, op.Denom = false, ""
 	default:
 		op.T = "burnnative"
 	}
@@ -292,7 +324,9 @@ func (w *c15World) runCase(t *testing.T, cs *c15Case) c15Obs {
 				}
 				coins := sdk.NewCoins(sdk.NewInt64Coin(w.expand(g.Denom), g.Fund[u]))
 				var err error
-				if u < nUsers {
+				if u == ghost {
+					continue
+				} else if u < nUsers {
 					err = c.Fund(w.addrs[u], coins)
 				} else {
 					// module accounts (e.g. the fee collector after fees were paid in this denom)
@@ -306,7 +340,9 @@ func (w *c15World) runCase(t *testing.T, cs *c15Case) c15Obs {
 	}
 	for i := range cs.Ops {
 		normaliseOp(&cs.Ops[i])
-		add(cs.Ops[i].Denom)
+		if cs.Ops[i].T != "reimport" {
+			add(cs.Ops[i].Denom)
+		}
 	}
 	obs.Init = w.snapshot(denoms)
 	if len(cs.Ops) > 0 {
@@ -316,6 +352,18 @@ func (w *c15World) runCase(t *testing.T, cs *c15Case) c15Obs {
 		j := i + 1
 		for j < len(cs.Ops) && cs.Ops[j].Join {
 			j++
+		}
+		if cs.Ops[i].T == "reimport" {
+			if j < len(cs.Ops) && j == i+1 {
+				// nothing joins a round trip
+			}
+			for k := i + 1; k < j; k++ {
+				cs.Ops[k].Join = false
+			}
+			w.reimport()
+			obs.Ops = append(obs.Ops, c15OpObs{OK: true, Snap: w.snapshot(denoms)})
+			i++
+			continue
 		}
 		var msgs []sdk.Msg
 		var senders []int
@@ -462,7 +510,9 @@ func (g *c15Gen2) amount() int64 {
 
 func (g *c15Gen2) target() string {
 	r := g.r
-	switch r.Pick(50, 28, 12, 5, 5) {
+	switch r.Pick(50, 28, 12, 5, 5, 3) {
+	case 5:
+		return fmt.Sprintf("@%d", ghost) // gives the never-funded address an account
 	case 1:
 		return fmt.Sprintf("@%d", r.Intn(nUsers))
 	case 2:
@@ -518,7 +568,9 @@ func (g *c15Gen2) op() c15Op {
 	case 3:
 		d, sd := g.pickDenom()
 		op := c15Op{T: "admin", Sender: g.pickSender(sd), Denom: d}
-		switch r.Pick(70, 8, 8, 8, 6) {
+		switch r.Pick(62, 8, 8, 8, 6, 8) {
+		case 5:
+			op.NewAdmin = fmt.Sprintf("@%d", ghost) // a successor that has no account (yet)
 		case 0:
 			op.NewAdmin = fmt.Sprintf("@%d", r.Intn(nUsers))
 		case 1:
@@ -565,7 +617,10 @@ func genC15Case(r *Rng) c15Case {
 			creator := r.Intn(nUsers)
 			gd := c15Gen{Denom: fmt.Sprintf("tf/@%d/gen%d", creator, i), Fund: []int64{0, 0, 0, 0, 0, 0, 0}}
 			sd := &shadowDenom{denom: gd.Denom, admin: -1}
-			switch r.Pick(4, 3, 3) {
+			switch r.Pick(4, 3, 3, 2) {
+			case 3: // an admin that has no account at import time
+				gd.Admin = fmt.Sprintf("@%d", ghost)
+				sd.former = []int{creator}
 			case 0: // renounced
 			case 1:
 				gd.Admin = fmt.Sprintf("@%d", creator)
@@ -576,7 +631,7 @@ func genC15Case(r *Rng) c15Case {
 				sd.admin = a
 				sd.former = []int{creator}
 			}
-			for u := 0; u < nAccts; u++ {
+			for u := 0; u < ghost; u++ {
 				if r.Chance(1, 2) {
 					gd.Fund[u] = int64(r.Range(1, 200))
 					sd.holders = append(sd.holders, fmt.Sprintf("@%d", u))
@@ -633,6 +688,43 @@ func genC15Case(r *Rng) c15Case {
 			}
 		}
 	}
+	// genesis export / import round trips: after a hand-over to a funded successor, to the never-funded
+	// address, or on renounced / foreign-admin genesis denoms; afterwards every party tries everything
+	if len(g.denoms) > 0 && r.Chance(35, 100) {
+		sd := g.denoms[r.Intn(len(g.denoms))]
+		parties := []int{r.Intn(nUsers)}
+		if sd.admin >= 0 {
+			a := sd.admin
+			parties = []int{a}
+			switch r.Intn(3) {
+			case 0: // successor without an account
+				cs.Ops = append(cs.Ops, c15Op{T: "admin", Sender: a, Denom: sd.denom, NewAdmin: fmt.Sprintf("@%d", ghost)})
+				sd.former, sd.admin = append(sd.former, a), -1
+			case 1: // funded successor
+				b := (a + 1 + r.Intn(nUsers-1)) % nUsers
+				cs.Ops = append(cs.Ops, c15Op{T: "admin", Sender: a, Denom: sd.denom, NewAdmin: fmt.Sprintf("@%d", b)})
+				sd.former, sd.admin = append(sd.former, a), b
+				parties = append(parties, b)
+			}
+		}
+		parties = append(parties, sd.former...)
+		cs.Ops = append(cs.Ops, c15Op{T: "reimport"})
+		seen := map[int]bool{}
+		for _, who := range parties {
+			if seen[who] || who < 0 || who >= nUsers {
+				continue
+			}
+			seen[who] = true
+			cs.Ops = append(cs.Ops, c15Op{T: "mint", Sender: who, Denom: sd.denom, Amt: int64(r.Range(1, 30))})
+			cs.Ops = append(cs.Ops, c15Op{T: "burn", Sender: who, Denom: sd.denom, Amt: int64(r.Range(1, 5)), Target: fmt.Sprintf("@%d", r.Intn(nUsers))})
+			if r.Chance(1, 2) {
+				cs.Ops = append(cs.Ops, c15Op{T: "admin", Sender: who, Denom: sd.denom, NewAdmin: fmt.Sprintf("@%d", who)})
+			}
+		}
+		if r.Chance(1, 3) {
+			cs.Ops = append(cs.Ops, c15Op{T: "reimport"})
+		}
+	}
 	// multi-message txs: a hand-over (or mint / creation) followed IN THE SAME TX by a message that
 	// fails, so that everything is rolled back; then every party tries to mint, burn and hand over
 	if len(g.denoms) > 0 && r.Chance(35, 100) {
@@ -682,7 +774,9 @@ func genC15Case(r *Rng) c15Case {
 	}
 	for len(cs.Ops) < n {
 		op := g.op()
-		if len(cs.Ops) > 0 && r.Chance(14, 100) {
+		if r.Chance(4, 100) {
+			op = c15Op{T: "reimport"} // a round trip at an arbitrary point
+		} else if len(cs.Ops) > 0 && r.Chance(14, 100) {
 			op.Join = true // ordinary multi-message txs, succeeding or not
 		}
 		cs.Ops = append(cs.Ops, op)
@@ -723,6 +817,16 @@ func openers() []c15Case {
 			{T: "admin", Sender: 0, Denom: D, NewAdmin: "@1"}, {T: "admin", Sender: 1, Denom: D, NewAdmin: "@2"},
 			{T: "admin", Sender: 2, Denom: D, NewAdmin: "@0"}, {T: "mint", Sender: 2, Denom: D, Amt: 5},
 			{T: "mint", Sender: 1, Denom: D, Amt: 5}, {T: "burn", Sender: 0, Denom: D, Amt: 5, Target: "@2"}}},
+		// control survives a genesis export / import round trip: an admin without an account stays the
+		// admin, a renounced denom stays renounced, the creator does not come back
+		{Genesis: []c15Gen{{Denom: "tf/@1/old", Admin: "", Fund: []int64{0, 40, 0, 0}}, {Denom: "tf/@2/lent", Admin: "@7", Fund: []int64{0, 0, 30, 0}}},
+			Ops: []c15Op{
+				{T: "create", Sender: 0, Sub: "gold"}, {T: "mint", Sender: 0, Denom: D, Amt: 50},
+				{T: "admin", Sender: 0, Denom: D, NewAdmin: "@7"}, {T: "reimport"},
+				{T: "mint", Sender: 0, Denom: D, Amt: 5}, {T: "burn", Sender: 0, Denom: D, Amt: 5}, {T: "admin", Sender: 0, Denom: D, NewAdmin: "@0"},
+				{T: "mint", Sender: 1, Denom: "tf/@1/old", Amt: 5}, {T: "mint", Sender: 2, Denom: "tf/@2/lent", Amt: 5},
+				{T: "create", Sender: 3, Sub: "s"}, {T: "admin", Sender: 3, Denom: "tf/@3/s", NewAdmin: "@2"}, {T: "reimport"},
+				{T: "mint", Sender: 3, Denom: "tf/@3/s", Amt: 5}, {T: "mint", Sender: 2, Denom: "tf/@3/s", Amt: 5}, {T: "create", Sender: 3, Sub: "s"}}},
 		// a tx whose later message fails is rolled back as a whole: the hand-over inside it never happened
 		{Genesis: []c15Gen{}, Ops: []c15Op{
 			{T: "create", Sender: 0, Sub: "gold"}, {T: "mint", Sender: 0, Denom: D, Amt: 100},
